@@ -34,6 +34,14 @@ theorem scope_doDiscard {L id s} (h : Scope L id s) : Scope L id (doDiscard s) :
   · right
     simp [doDiscard, ha, hf, hc, hl]
 
+theorem scope_setEnabledField {L id s} (b : Bool) (h : Scope L id s) : Scope L id { s with enabled := b } := h
+
+theorem scope_doSetEnabled {L id s} (b : Bool) (h : Scope L id s) : Scope L id (doSetEnabled s b) := by
+  unfold doSetEnabled
+  split
+  · exact scope_setEnabledField true h
+  · exact scope_setEnabledField false (scope_doDiscard h)
+
 theorem scope_doForce {L id s} (h : Scope L id s) : Scope L id (doForce s) := by
   obtain ⟨hp, hpo, h⟩ := h
   refine ⟨by simpa using hp, by simpa using hpo, ?_⟩
@@ -82,7 +90,7 @@ theorem scope_exec (L : List Ev) (id : Nat) (p : Prog) (s : St) (h : Scope L id 
   exec_preserves (Scope L id) (fun _ e h => scope_addJournal e h) (fun _ b h => scope_setInt b h)
     (fun _ h => scope_doDiscard h) (fun _ h => scope_doForce h) (fun _ k v h => scope_doRecordData k v h)
     (fun _ cfg n a h hi => scope_recordOutput cfg n a h hi) (fun cfg a k0 _ o h => scope_afterInput cfg a k0 o h)
-    (fun al n _ o h => scope_afterOutput al n o h) p s h
+    (fun al n _ o h => scope_afterOutput al n o h) (fun _ b h => scope_doSetEnabled b h) p s h
 
 /-! ### `_execute_operation_func` outside replay -/
 theorem execOperationFunc_record (s : St) (p : Prog) (h : s.playback = none) :
